@@ -24,6 +24,7 @@ def configs(tier, seed):
         "wide": (treeexp.make_cfg("wide", seed, "wide", req=True, max_containers=3), 2 if q else 3),
         "narrow-bad": (treeexp.make_cfg("narrow-bad", seed, "narrow", copies=False, moves=False, max_containers=2, bad=True), 3 if q else 4),
         "deep": (treeexp.make_cfg("deep", seed, "deep", moves=False, max_containers=2), 3 if q else 5),
+        "repeat": (treeexp.make_cfg("repeat", seed, "repeat", max_containers=2), 3 if q else 4),
         "values": (treeexp.make_cfg("values", seed, "narrow", copies=False, moves=False, max_containers=2, values=True), 2 if q else 3),
         "relcm": (treeexp.make_cfg("relcm", seed, "narrow", copies=False, moves=False, max_containers=2, relcm=True), 3 if q else 4),
         "narrow4": (
